@@ -12,11 +12,13 @@ KIND = {'C_NB': 'NB', 'SCD_NB': 'NB', 'C_NOOA': 'NOOA', 'SCD_NOOA': 'NOOA', 'SES
 BASE_OFF = {'C_NB': -60, 'C_NOOA': 300, 'SCD_NOOA': 400, 'SCD_NB': -50, 'SESS': 500}
 
 
-def sp_for(slack):
-    if slack not in _sp:
+def sp_for(slack, soap=False):
+    k = (slack, soap)
+    if k not in _sp:
         top = {} if slack is None else {'accepted_time_diff': slack}
-        _sp[slack] = world.make_sp(TMP[0], top=top)
-    return _sp[slack]
+        # over SOAP the documents are unsigned (the SOAP reader re-serialises the body)
+        _sp[k] = world.make_sp(TMP[0], top=top, **({'want_response_signed': False} if soap else {}))
+    return _sp[k]
 
 
 def shapes(thorough):
@@ -61,7 +63,7 @@ ZONES_T = ('UTC', 'VPA-5', 'VPB5', 'VPC-5:30', 'VPD3:30VPE,M3.2.0,M11.1.0')
 Z_LIKE = ('Z', '.000Z', '.999Z')
 
 
-def build_doc(shape, style):
+def build_doc(shape, style, soap=False):
     T0 = env.BASE
     conf = [forge.confirmation(T0, nooa=shape.get('SCD_NOOA'), nb=shape.get('SCD_NB'), style=style)]
     if 'SCD2_NOOA' in shape or 'SCD2_NB' in shape:
@@ -73,6 +75,9 @@ def build_doc(shape, style):
         a['more_authn'] = [shape['SESS2']] + ([shape['SESS3']] if 'SESS3' in shape else [])
     if shape.get('_noaud'):
         a['audiences'] = ()
+    if soap:
+        a['confirmations'] = [c.replace(world.ACS_POST, world.ACS_SOAP) for c in conf]
+        return forge.build(T0, resp=dict(style=style, dest=world.ACS_SOAP), assertions=[a])
     return forge.build(T0, resp=dict(style=style), assertions=[a], sign_resp='idpA')
 
 
@@ -112,6 +117,9 @@ def cells(thorough):
                     if tz != 'UTC' and not (rich and style == 'Z' and s in (None, 60) or thorough and style in ('Z', '+01:00')):
                         continue
                     out.append((si, name, style, s, f(s or 0), tz))
+                    # the same windows when the response arrives over the synchronous binding
+                    if tz == 'UTC' and style == 'Z' and s in (None, 60) and (rich or thorough):
+                        out.append((si, name, style, s, f(s or 0), 'UTC/soap'))
     return out
 
 
@@ -161,7 +169,7 @@ DOCS = {}
 
 def evaluate(cell):
     import os, time
-    os.environ['TZ'] = cell[5]
+    os.environ['TZ'] = cell[5].split('/')[0]
     time.tzset()
     try:
         return evaluate_in_zone(cell)
@@ -172,17 +180,18 @@ def evaluate(cell):
 
 def evaluate_in_zone(cell):
     si, name, style, slack, dts, _tz = cell
+    soap = _tz.endswith('/soap')
     shape = SHAPES[si][1]
-    k = (si, style)
+    k = (si, style, soap)
     if k not in DOCS:
         env.Clock.set(env.BASE)
-        DOCS[k] = build_doc(shape, style)
+        DOCS[k] = build_doc(shape, style, soap)
     xml = DOCS[k]
-    sp = sp_for(slack)
+    sp = sp_for(slack, soap)
     out = []
     for dt in dts:
         env.Clock.set(env.BASE + dt)
-        obs = oracle.accept_response(sp, xml)
+        obs = oracle.accept_response(sp, xml, binding=world.BINDING_SOAP) if soap else oracle.accept_response(sp, xml)
         rej, acc, exp = judge(shape, style, slack, dt)
         bad = None
         if obs['accept'] and rej:
@@ -239,7 +248,7 @@ def run(ctx):
         'level': 'exploration',
         'coverage': {
             'evaluations': n, 'distinct_nontrivial': len(nontriv), 'exhaustive': True,
-            'rule': 'complete grid: %d document shapes (every subset of the five optional bounds; Conditions without any child element; two bearer confirmations with different windows in both orders; session-earlier-than-conditions; two and three AuthnStatements with the earliest session bound on a later one; wide bounds isolating IssueInstant; NotBefore>NotOnOrAfter inversions) x timestamp spellings (Z, fractions, no designator, numeric zones incl. half-hour and negative offsets) x allowance values x process time zone (UTC, UTC+5, UTC-5; thorough also +5:30 and a DST zone) x placements of now (-2..+2 s around every edge shifted by the allowance, around +-1 day of IssueInstant, far values); non-trivial = cells where the oracle demands a verdict (reject-required or accept-required, 1 s dead zone around each edge)' % len(SHAPES),
+            'rule': 'complete grid: %d document shapes (every subset of the five optional bounds; Conditions without any child element; two bearer confirmations with different windows in both orders; session-earlier-than-conditions; two and three AuthnStatements with the earliest session bound on a later one; wide bounds isolating IssueInstant; NotBefore>NotOnOrAfter inversions) x timestamp spellings (Z, fractions, no designator, numeric zones incl. half-hour and negative offsets) x allowance values x process time zone (UTC, UTC+5, UTC-5; thorough also +5:30 and a DST zone) x delivery (signed over HTTP-POST; unsigned over SOAP, where the handler runs with asynchop off) x placements of now (-2..+2 s around every edge shifted by the allowance, around +-1 day of IssueInstant, far values); non-trivial = cells where the oracle demands a verdict (reject-required or accept-required, 1 s dead zone around each edge)' % len(SHAPES),
             'samples': [{'cell': list(cs[i0][:4]) + [cs[i0][5]], 'instants': cs[i0][4][:6], 'outcomes': [list(o) for o in res[i0][:3]]}],
             'accepted': n_acc, 'accept_required_cells': n_must_acc, 'reject_required_cells': n_must_rej,
             'distinct_outcomes': len(hist), 'outcome_histogram': hist,
